@@ -189,6 +189,12 @@ class ParsersWorld:
                     op["cancel"] = {"line": int(2 ** rf.uniform(3, 15))}
                     if core.stream(seed, "alloc:%d" % i).random() < 0.5:
                         op["cancel"]["as"] = rf.choice(["MemoryError", "MemoryError", "RecursionError"])
+                    rfo = core.stream(seed, "cfocus:%d" % i)
+                    if rfo.random() < 0.45:
+                        # the n-th line executed inside one part of the library (the output stage runs after all parsing)
+                        op["cancel"]["focus"] = rfo.choice(["/output/", "/output/", "/output/base_data.py", "/output/table_data.py", "/output/core.py",
+                                                            "/output/dialects.py", "/dialects/", "/utils.py", "/ddl_parser.py"])
+                        op["cancel"]["line"] = int(2 ** rfo.uniform(0, 9))
                 elif f < 0.42 and "dump" in op:
                     op["dump_fault"] = rf.choice(["EACCES", "ENOSPC", "EIO"])
                     if core.stream(seed, "dfsys:%d" % i).random() < 0.4:
@@ -274,6 +280,8 @@ class ParsersWorld:
         for i, op in enumerate(trace["ops"]):
             stats["ops"] += 1
             kind = op["op"]
+            if S.trace_prefixes and not any("line" in (o.get("cancel") or {}) for o in trace["ops"][i:]):
+                sys.settrace(None)      # no line-granularity fault ahead: the rest of the history runs untraced
             if op.get("clock"):
                 ctx["clock"].jump(float(op["clock"]))
             before = _snapshot(cwd)
@@ -379,6 +387,8 @@ class ParsersWorld:
                 ctx["cancel_stmt"] = c.get("stmt")
                 task.lines = 0
                 task.cancel_at_line = c.get("line")
+                task.cancel_focus = c.get("focus")
+                task.focus_lines = 0
                 task.cancel_exc = {"MemoryError": MemoryError, "RecursionError": RecursionError}.get(c.get("as"))
                 plan = None
                 if op.get("dump_fault"):
@@ -540,9 +550,7 @@ class ParsersWorld:
                 outcome = core.outcome_of_exception(e)
             expected = self.ref(it["ddl"], it["flags"], it["run"])
             if outcome != expected:
-                ops = [dict(o) for o in trace["ops"][:i + 1]]
-                for o in ops:
-                    o.pop("cancel", None)
+                ops = [dict(o) for o in trace["ops"][:i + 1]]      # faults included: an interrupted run may be the polluter
                 ops += [{"op": "new", "ddl": it["ddl"], "flags": dict(it["flags"]), "src": "corpus:%d" % idx},
                         {"op": "run", "kw": dict(it["run"])}]
                 st["trace_override"] = dict(trace, ops=ops)
@@ -1024,6 +1032,49 @@ class ParsersWorld:
             out["stats"]["switches"] += res["stats"].get("switches", 0)
             out["stats"]["refs"] += res["stats"].get("refs", 0)
             if res["status"] == "violation" and not out["violating"]:
+                out["violating"].append(shrink.shrink(self, res))
+        return out
+
+    # ------------------------------------------------------------------ C14: first use of the process interrupted
+    FIRST_USE_FOCI = ["/output/base_data.py", "/output/table_data.py", "/output/core.py", "/output/dialects.py",
+                      "/dialects/", "/utils.py", "/ddl_parser.py", "/parser.py"]
+    FIRST_USE_LINES = sorted(set(list(range(1, 25)) + list(range(24, 121, 4)) + list(range(120, 401, 16))))
+
+    def sweep_first_use(self, seed, part, nparts):
+        """Fault enumeration: the FIRST run() of a process is interrupted at the n-th line it executes inside one part of
+        the library (n = 1..24, then every 4th up to 120, every 16th up to 400, per part; alternately as a cancellation and as a failing allocation), then the same object
+        runs again and a fresh object parses another script twice.  Lazily built process-wide structures (per-class
+        caches, compiled tables) are built during exactly that first use; one that is published before it is complete
+        stays half-built for the rest of the process."""
+        import shrink
+        c = [it for it in core.corpus() if 150 < len(it["ddl"]) < 2500 and "create table" in it["ddl"].lower()]
+        cells = [(f, n) for f in self.FIRST_USE_FOCI for n in self.FIRST_USE_LINES]
+        out = {"status": "ok", "k": "first-use", "orderings": 0, "keys": [], "violating": [],
+               "stats": {"first_use_cells": 0, "first_use_fired": 0}}
+        for idx, (focus, n) in enumerate(cells):
+            if idx % nparts != part:
+                continue
+            r = core.stream(seed, "first-use:%d" % idx)
+            it, it2 = r.choice(c), r.choice(c)
+            mode = r.choice(["sql"] * len(self.modes) + list(self.modes))
+            kw = dict(it["run"], output_mode=mode)
+            kw2 = dict(it2["run"], output_mode=mode)
+            cancel = {"line": n, "focus": focus}
+            if idx % 2:
+                cancel["as"] = "MemoryError"
+            ops = [{"op": "new", "ddl": it["ddl"], "flags": dict(it["flags"]), "src": "corpus"},
+                   {"op": "run", "kw": kw, "cancel": cancel},
+                   {"op": "run", "kw": dict(kw)},
+                   {"op": "new", "ddl": it2["ddl"], "flags": dict(it2["flags"]), "src": "corpus"},
+                   {"op": "run", "kw": kw2},
+                   {"op": "run", "kw": dict(kw2, json_dump=True)}]
+            trace = {"world": "parsers", "prop": "C14", "seed": seed, "swarm": {"sweep": ["first_use", focus, n]}, "ops": ops}
+            res = self.execute(trace, keep_events=False)
+            out["orderings"] += 1
+            out["stats"]["first_use_cells"] += 1
+            out["stats"]["first_use_fired"] += 1 if res["stats"].get("cancel_line_fired") else 0
+            out["keys"].append("first-use:%s:%d" % (focus, n))
+            if res["status"] == "violation" and len(out["violating"]) < 1:
                 out["violating"].append(shrink.shrink(self, res))
         return out
 
